@@ -95,6 +95,9 @@ def eval_case(case, want, dtypes=("float64", "float32"), variant=0):
                 add("value_differs_from_model", "forward(%s) = %.12g, exact model %.12g" % (ins[i][0], float(yd[i]), float(ey[i])), **tag)
             dl = (ld - el).abs()
             bad = (dl > 1e-7).nonzero().reshape(-1).tolist()
+            # the derivative of the linear spline jumps at its knots: there it has no value to compare with
+            # (a knot that is not a float falls into either neighbouring bin)
+            bad = [i for i in bad if not (par["fam"] == "linear" and (Fraction(ins[i][0]) - par["left"]) * K / (par["right"] - par["left"]) % 1 == 0)]
             if bad:
                 # adjudicate with one-sided / central differences of the real map inside the bin
                 h = 1e-6 * max(1.0, right - left)
@@ -139,7 +142,9 @@ def eval_case(case, want, dtypes=("float64", "float32"), variant=0):
                 if float(gy_d.min()) < min(bottom, bot_dt) or float(gy_d.max()) > max(top, top_dt):
                     i = int((gy_d - top).argmax()) if float(gy_d.max()) > top else int(gy_d.argmin())
                     add("leaves_box", "f(%.17g) = %.17g outside [%s, %s]" % (float(g[i]), float(gy[i]), bottom, top), **tag)
-                tol_end = 4 * ulp(torch, max(abs(top), abs(bottom), 1e-30), dt)
+                # the cubic is evaluated as a*s^3 + b*s^2 + c*s + d with coefficients several times the value:
+                # its end point carries the rounding of three multiply-adds (12 ulp observed in float32)
+                tol_end = (32 if par["fam"] == "cubic" else 4) * ulp(torch, max(abs(top), abs(bottom), 1e-30), dt)
                 if abs(float(yd[0]) - bottom) > tol_end or abs(float(yd[-1]) - top) > tol_end:
                     add("endpoint_not_pinned", "f(left) = %.17g, f(right) = %.17g for box [%s, %s]" % (float(yd[0]), float(yd[-1]), bottom, top), **tag)
                 if bool((gl.double() == -float("inf")).any()) or bool(torch.isnan(gl).any()):
@@ -254,6 +259,9 @@ def eval_case(case, want, dtypes=("float64", "float32"), variant=0):
         scale = max(1.0, abs(top), abs(bottom), abs(left), abs(right))
         # dx = dy / d, and the bin-search margin (1e-6 in box units) enters at the knots
         tolx = (64 * 2.0 ** -23 * scale + 2e-6 * (right - left)) * (1.0 + 1.0 / ed.min().item())
+        if par["fam"] == "cubic":
+            # root finding of a cubic near a repeated root is conditioned like sqrt(eps): 8 sqrt(2^-23) per unit width
+            tolx = max(tolx, 8 * 2.0 ** -11.5 * (right - left))
         if bool(torch.isfinite(x32).all() and torch.isfinite(x64).all()) and float((x32 - x64).abs().max()) > tolx:
             i = int((x32 - x64).abs().argmax())
             add("f32_vs_f64", "inverse(%s): float32 %.9g vs float64 %.9g" % (ins[i][1]["y"], float(x32[i]), float(x64[i])), dtype="float32")
